@@ -14,6 +14,8 @@
 //!      the closure passed to Fn/FnMut/Copy consumers, boxed, called from an iterator adaptor
 //!   N  recursion name equal to a capture / argument / binding name, to a std macro
 //!   F  recursion name equal to the name of a free fn (same parameters as the lambda) that the body calls as a function
+//!   H<n> history: a body with early returns, the closure invoked n times in a loop (state hidden in the expansion
+//!      that accumulates over invocations)
 //!   K  (not a program family) the crate's README examples and tests/tests.rs compiled and run
 //!   X  (not a program family) the generated program type checks as an edition 2018 and an edition 2024 crate
 //!
@@ -23,7 +25,7 @@ use crate::{call_exprs, prelude, setup, top_args, ty, Shape};
 use std::cell::Cell;
 use std::fmt::Write as _;
 
-pub const FAMS: &str = "TLEAYDRGNFKX";
+pub const FAMS: &str = "TLEAYDRGNFHKX";
 
 pub fn letter(f: &str) -> char {
     f.chars().next().unwrap_or('?')
@@ -33,7 +35,7 @@ pub fn index(f: &str) -> Option<usize> {
     let l = letter(f);
     let k = FAMS.find(l)?;
     let rest = &f[1..];
-    if l == 'D' {
+    if l == 'D' || l == 'H' {
         if rest.is_empty() || rest.parse::<u64>().is_err() { return None; }
     } else if !rest.is_empty() {
         return None;
@@ -42,7 +44,7 @@ pub fn index(f: &str) -> Option<usize> {
 }
 
 pub fn in_program(k: usize) -> bool {
-    k < 10
+    k < 11
 }
 
 // ------------------------------------------------------------------------------------------------ rendering
@@ -407,6 +409,40 @@ fn fam_d(s: &Shape, idx: usize, depth: u64, macro_side: bool) -> String {
     let def = clo_def(s, macro_side, "f", &body);
     let driver = format!("{}{}{}", top_call(s, depth), top_call(s, 3), top_call(s, depth / 2));
     frame(idx, 'D', macro_side, &setup(s), &def, &driver, &dump(s))
+}
+
+// ------------------------------------------------------------------------------------------------ H: long histories
+fn fam_h(s: &Shape, idx: usize, count: u64, macro_side: bool) -> String {
+    let r = Rend::new(s, if macro_side { Some("f") } else { None }, "rec");
+    let mut pre = String::from("            let mut sh: u64 = 1;\n");
+    for (i, &(m, sc)) in s.caps.iter().enumerate() {
+        if !m {
+            if sc { writeln!(pre, "            sh = sh.wrapping_mul(3).wrapping_add(*v{});", i).unwrap(); }
+            else { writeln!(pre, "            sh = sh.wrapping_mul(3).wrapping_add(v{}[(x0 % 2) as usize]);", i).unwrap(); }
+        }
+    }
+    for (i, &(m, sc)) in s.caps.iter().enumerate() {
+        if m {
+            if sc { writeln!(pre, "            *v{i} = v{i}.wrapping_mul(31).wrapping_add(sh).wrapping_add(x0);", i = i).unwrap(); }
+            else { writeln!(pre, "            if v{i}.len() < 64 {{ v{i}.push(sh.wrapping_add(x0)); }} else {{ let k = (sh % 64) as usize; v{i}[k] = v{i}[k].wrapping_mul(7).wrapping_add(sh); }}", i = i).unwrap(); }
+        }
+    }
+    let tpl = if s.ret {
+        "@PRE@            if x0 == 0 { return sh.wrapping_add(@XL@); }\n            let r = @C@;\n            if r % 2 == 0 { return r.wrapping_add(1); }\n            r.wrapping_mul(3).wrapping_add(@XL@)\n"
+    } else {
+        "@PRE@            if x0 == 0 { return; }\n            @C@;\n            if sh % 2 == 0 { return; }\n            if x0 == 1 { @C@; }\n"
+    };
+    let body = fill(tpl, &r, &call_exprs(s.nargs), s, &pre);
+    let def = clo_def(s, macro_side, "f", &body);
+    let args: String = std::iter::once("it % 3".to_string()).chain((1..s.nargs).map(|k| format!("it.wrapping_mul({}) % 1000", k + 1))).collect::<Vec<_>>().join(", ");
+    let mut driver = format!("        let mut acc: u64 = 0;\n        for it in 0..{}u64 {{\n", count);
+    if s.ret {
+        writeln!(driver, "            acc = acc.wrapping_mul(31).wrapping_add(clo({}));", args).unwrap();
+    } else {
+        writeln!(driver, "            clo({});", args).unwrap();
+    }
+    driver.push_str("        }\n        out.push(acc);\n");
+    frame(idx, 'H', macro_side, &setup(s), &def, &driver, &dump(s))
 }
 
 // ------------------------------------------------------------------------------------------------ R: rounds, repeats, panic
@@ -797,6 +833,7 @@ pub fn gen(s: &Shape, idx: usize, f: &str, macro_side: bool) -> String {
         'Y' => fam_y(s, idx, macro_side),
         'D' => fam_d(s, idx, f[1..].parse().unwrap_or(1000), macro_side),
         'R' => fam_r(s, idx, macro_side),
+        'H' => fam_h(s, idx, f[1..].parse().unwrap_or(1000), macro_side),
         'G' => fam_g(s, idx, macro_side),
         'N' => fam_n(s, idx, 'N', macro_side),
         'F' => fam_n(s, idx, 'F', macro_side),
